@@ -189,6 +189,7 @@ def check(chk):
               'the only test of is_shutdown is before the session is built: a shutdown() that runs in between sweeps an empty `sessions`, and the session created '
               'afterwards - with its pools and connections - is returned to the caller and never closed')
 
+    _handler_rule(chk)
 
 
 def _may_raise_call(st):
@@ -228,3 +229,38 @@ def _publish(chk, f, is_pub, flag, lock_recv, lockname, close_text):
           any(n.ast is x for t in tests for x in ast.walk(parent(t.ast) if not isinstance(t.ast, ast.If) else t.ast))]
     closes = [n for n in g.stmt_nodes() if n.kind == 'stmt' and src(n.ast) == close_text and fl.at(n) and all(fa.knows(flag) is True for fa, _ in fl.at(n))]
     chk.judge(len(closes) >= 1, 'C45.publish', f, '%s: shut down -> %s' % (qual_of(f), close_text), 'the object created during shutdown is dropped without being closed')
+
+
+def _handler_rule(chk):
+    """_ReconnectionHandler.run: the connection try_reconnect() returned is closed on every path that leaves run() (the host handler's probe
+    connection; for the control handler on_reconnection has taken what it needs), including the cancelled one"""
+    chk.rule('C45.handler', '_ReconnectionHandler.run closes the connection returned by try_reconnect() on every path out of run(), also when the handler was cancelled meanwhile')
+    pool = chk.repo.mod('cassandra/pool.py')
+    run = pool.func('_ReconnectionHandler.run')
+    g = CFG(run)
+    gets = [n for n in g.stmt_nodes() if n.kind == 'stmt' and isinstance(n.ast, ast.Assign) and isinstance(n.ast.value, ast.Call) and src(n.ast.value.func) == 'self.try_reconnect']
+    if len(gets) != 1:
+        raise AnalysisError('_ReconnectionHandler.run: conn = self.try_reconnect() not found')
+    var = src(gets[0].ast.targets[0])
+
+    def closes(n):
+        return n.kind == 'stmt' and any(isinstance(c, ast.Call) and src(c.func) == '%s.close' % var for c in ast.walk(n.ast))
+    seen, work, leaks = set(), [(x, l) for x, l in gets[0].succ if not (l and l[0] == 'exc')], []
+    while work:
+        n, lab = work.pop()
+        if n.id in seen or closes(n):
+            continue
+        seen.add(n.id)
+        if n.kind in ('exit', 'raise'):
+            leaks.append(n)
+            continue
+        for x, l2 in n.succ:
+            # `if conn:` - after a successful try_reconnect the name is bound to a connection
+            if n.kind == 'test' and src(n.ast) == var and l2 and l2[0] == 'F':
+                continue
+            if n.kind == 'test' and src(n.ast) == 'not %s' % var and l2 and l2[0] == 'T':
+                continue
+            work.append((x, l2))
+    chk.judge(not leaks, 'C45.handler', gets[0].ast, 'every path from a successful try_reconnect() out of run() passes %s.close()' % var,
+              'a path leaves run() with the freshly opened connection still open (e.g. the handler was cancelled by shutdown() while try_reconnect() was connecting): '
+              'nobody else holds that connection, it stays open after the cluster is shut down')
